@@ -38,6 +38,16 @@ dispatcher.py:203-227, 279-320), one step per primitive as well:
   uRelease     end of the `with moduleobj.updateLock` block
   dRelease     end of `handle_request`
 
+`change` and `read` requests (`handle_request` → `handle_change` / `handle_read` → `_setParameterValue` /
+`_getParameterValue` → write / read wrapper) are programs over the same primitives (`changeOps`, `readReqOps`):
+
+  reqAcquire k `with self._lock:` in `handle_request(conn, msg)` — `k` is the connection that sent the request; NO step looks
+               at it (the handlers of these requests ignore `conn`; the fan-out `listeners` depends on the subscriptions only)
+  accAcquire   `with moduleobj.accessLock:` in `_setParameterValue`, and again (RLock, `adepth`) in the wrapper
+  announce …   every call of the funnel the wrapper makes, and every assignment made by the body of the driver method
+  accRelease, reqRelease
+(`doOps`: a `do` request — the body of the command assigns parameters, under the dispatcher lock only).
+
 `act k p` = connection `k` is selected by `broadcast_event` for messages of parameter `p` (general activation, module or
 parameter subscription — one module is modelled, so a subscription is a set of its parameters).  `snapped k p` (ghost) =
 `k` has been sent a snapshot message for `p` during the run.  Callbacks (`paramCallbacks`) are not modelled: the funnel is not re-entered,
@@ -62,6 +72,9 @@ inductive Op (V E : Type) where
   | accRelease
   | announce (p : Pid) (ev : Ev V E) (ts : TsArg)
   | activate (k : Cid) (ps : List Pid)     -- `activate` request of connection `k` subscribing to the parameters `ps`
+  | reqAcquire (k : Cid)                   -- `handle_request(conn, msg)` of a `change` / `read` request of connection `k`:
+                                           -- `with self._lock` — the handlers of these requests never look at `conn`
+  | reqRelease                             -- end of that `handle_request`
   deriving Repr
 
 /-- where a thread is inside `announceUpdate` / inside `handle_request(activate)` -/
@@ -106,6 +119,7 @@ structure Sys (V E : Type) where
   entries : Pid → Entry V E
   lock : Option Tid                 -- owner of the module's updateLock
   alock : Option Tid                -- owner of the module's accessLock
+  adepth : Nat                      -- how often the owner holds it (RLock: `_setParameterValue` and the wrapper both take it)
   slock : Option Tid                -- owner of the dispatcher's _subscription_lock
   dlock : Option Tid                -- owner of the dispatcher's _lock (one request at a time)
   act : Cid → Pid → Bool            -- `broadcast_event` selects connection `k` for messages of parameter `p`
@@ -149,9 +163,17 @@ def stepIdle {V E : Type} (s : Sys V E) (t : Tid) : Option (Sys V E) :=
   match (s.thr t).prog with
   | [] => none
   | .accAcquire :: rest =>
-    if s.alock = none then some { s with alock := some t, thr := upd s.thr t ⟨rest, .idle⟩ } else none
+    if s.alock = none then some { s with alock := some t, adepth := 1, thr := upd s.thr t ⟨rest, .idle⟩ }
+    else if s.alock = some t then some { s with alock := some t, adepth := s.adepth + 1, thr := upd s.thr t ⟨rest, .idle⟩ }
+    else none
   | .accRelease :: rest =>
-    if s.alock = some t then some { s with alock := none, thr := upd s.thr t ⟨rest, .idle⟩ } else none
+    if s.alock = some t then
+      some { s with alock := if s.adepth ≤ 1 then none else some t, adepth := s.adepth - 1, thr := upd s.thr t ⟨rest, .idle⟩ }
+    else none
+  | .reqAcquire _ :: rest =>
+    if s.dlock = none then some { s with dlock := some t, thr := upd s.thr t ⟨rest, .idle⟩ } else none
+  | .reqRelease :: rest =>
+    if s.dlock = some t then some { s with dlock := none, thr := upd s.thr t ⟨rest, .idle⟩ } else none
   | .announce p ev ts :: rest =>
     if s.lock = none then some { s with lock := some t, thr := upd s.thr t ⟨rest, .locked p ev ts⟩ } else none
   | .activate k ps :: rest =>
@@ -188,10 +210,37 @@ def step {V E : Type} [DecidableEq E] (c : Cfg V E) (s : Sys V E) (t : Tid) : Op
   | .snap _ [] => some ({ s with lock := none }.setPc t .actE)
   | .actE => some ({ s with dlock := none }.setPc t .idle)
 
+/-! ### the programs of wrappers and requests -/
+
+/-- the wrapper of `read_<p>` / `write_<p>`: the access lock around the driver method and its calls of the funnel -/
+def guarded {V E : Type} (p : Pid) (evs : List (Ev V E)) : List (Op V E) :=
+  [.accAcquire] ++ evs.map (fun ev => .announce p ev .absent) ++ [.accRelease]
+
+/-- a `change` request of connection `k` (dispatcher.py `handle_request` → `handle_change` → `_setParameterValue`): the
+dispatcher lock around everything; unless the request is refused before (read-only, `import_value` raises) the access lock
+around `validate` and the call of the write wrapper, which takes the access lock again -/
+def changeOps {V E : Type} (o : Oracle V E) (k : Cid) (p : Pid) (rq : ChangeReq V) (checksOk : Bool) (inner : List V)
+    (w : WriteRes V) : List (Op V E) :=
+  [.reqAcquire k] ++
+  (if rq.readonly || rq.imported.isNone then [] else
+    [.accAcquire] ++ (match changeArg o rq with
+      | none => []
+      | some v => guarded p (writeEvs o v checksOk inner w)) ++ [.accRelease]) ++
+  [.reqRelease]
+
+/-- a `read` request of connection `k` (`handle_read` → `_getParameterValue` → read wrapper) -/
+def readReqOps {V E : Type} (o : Oracle V E) (k : Cid) (p : Pid) (inner : List V) (res : ReadRes V E) : List (Op V E) :=
+  [.reqAcquire k] ++ guarded p (readEvs o inner res) ++ [.reqRelease]
+
+/-- a `do` request of connection `k` (`handle_do` → `_execute_command` → `Command.do`): the body of the command runs under
+the dispatcher lock only (commands take no access lock); every assignment of a parameter it makes is a call of the funnel -/
+def doOps {V E : Type} (k : Cid) (p : Pid) (inner : List V) : List (Op V E) :=
+  [.reqAcquire k] ++ (innerEvs inner).map (fun ev => .announce p ev .absent) ++ [.reqRelease]
+
 /-- initial state: nobody holds a lock, nothing delivered yet -/
 def Sys.init {V E : Type} (entries : Pid → Entry V E) (progs : Tid → List (Op V E)) (clock : Int)
     (act0 : Cid → Pid → Bool) : Sys V E :=
-  { entries := entries, lock := none, alock := none, slock := none, dlock := none, act := act0,
+  { entries := entries, lock := none, alock := none, adepth := 0, slock := none, dlock := none, act := act0,
     snapped := fun _ _ => false, clock := clock,
     thr := fun t => ⟨progs t, .idle⟩, logs := fun _ _ => [], hist := fun _ => [], ghist := [] }
 
@@ -222,6 +271,8 @@ def nextLabel {V E : Type} (s : Sys V E) (t : Tid) : Option Label :=
     | .accRelease :: _ => some .relA
     | .announce _ _ _ :: _ => some .acqU
     | .activate _ _ :: _ => some .acqD
+    | .reqAcquire _ :: _ => some .acqD
+    | .reqRelease :: _ => some .relD
     | [] => none
   | .built _ _ _ _ => some .acqS
   | .sending _ _ _ _ (k :: _) => some (.send k)
